@@ -48,6 +48,18 @@ def _fake_module(dirpath):
     return m
 
 
+class _PathLike:
+    def __init__(self, p):
+        self._p = p
+
+    def __fspath__(self):
+        return self._p
+
+
+class _StrSub(str):
+    pass
+
+
 def plan(tier, seed):
     n = 10 if tier == "quick" else 16
     return [{"kind": "trees", "n": 45 if tier == "quick" else 1600} for _ in range(n)]
@@ -247,6 +259,12 @@ def one_tree(tspec, relative_style, acc, rnd, only_mp=None, force_excl=None, for
                 # the same directories spelled with '..' components
                 "dotdot": (os.path.join(root, os.pardir, rel_root), os.path.join(mp_abs, os.pardir, os.path.basename(mp_abs)) if mp else os.path.join(root, os.pardir, rel_root)),
                 "dotdot-through-a-child": (root, os.path.join(root, dirs_[0], os.pardir, mp) if (mp and dirs_) else root),
+                # ... the '..' spellings as pathlib.Path objects (Path(__file__).parent / ".." / "src"), as another
+                # os.PathLike object and as instances of a str subclass
+                "pathlib-dotdot": (Path(root) / os.pardir / rel_root, (Path(mp_abs) / os.pardir / os.path.basename(mp_abs)) if mp else Path(root) / os.pardir / rel_root),
+                "pathlib-dotdot-through-a-child": (Path(root), (Path(root) / dirs_[0] / os.pardir / mp) if (mp and dirs_) else Path(root)),
+                "pathlike-dotdot": (_PathLike(os.path.join(root, os.pardir, rel_root)), _PathLike(mp_abs)),
+                "str-subclass": (_StrSub(root), _StrSub(mp_abs + "/")),
             }
             for label, (r_arg, m_arg) in spellings.items():
                 c5 = dict(case, mp=mp, spelling=label)
